@@ -100,12 +100,16 @@ def h_message(ch, w, path):
     ctx = ch.ctx
     wc, acc = ctx.sint(ch.name(path + 'wc'), 8), ctx.bytes_(ch.name(path + 'acc'), 32)
     fee = amount(ctx, ch.name(path + 'fee'), 1)
-    m = dict(kind='ext_in', src=None, dest=('std', wc, acc), import_fee=fee)
+    src = None
+    xl = (0, 12, 0, 9)[ch._h('s' + path) % 4]
+    if xl:
+        src = ('ext', xl, ctx.uint(ch.name(path + 'xsrc'), xl))       # addr_extern of a length that is no multiple of 8
+    m = dict(kind='ext_in', src=src, dest=('std', wc, acc), import_fee=fee)
     body = SC(ORD, ctx.bitstr(ch.name(path + 'body'), 12), [])
     enc = message_encodings(m, None, body)[ch._h('e' + path) % 2][2]
     w.bits(enc.bits)
     w.r.extend(enc.refs)
-    return Exp(_cons='message', _type='Message', _msg=(wc, acc, fee, body))
+    return Exp(_cons='message', _type='Message', _msg=(wc, acc, fee, body, src))
 
 
 def h_tr_descr_simple(ch, w, path):
@@ -221,10 +225,13 @@ def match(got, exp, path, out):
             out.append((path, ok))
             return
         if t == 'Message':
-            wc, acc, fee, body = exp['_msg']
+            wc, acc, fee, body, src = exp['_msg']
             ok = isinstance(got, TR.MessageAny) and isinstance(got.info, TR.ExternalMsgInfo)
             if ok:
-                ok = And(got.info.src is None, isinstance(got.info.dest, Address) and And(got.info.dest.wc == wc, got.info.dest.hash_part == acc),
+                from pytoniq_core.boc.address import ExternalAddress
+                src_ok = (got.info.src is None) if src is None else (isinstance(got.info.src, ExternalAddress) and
+                                                                      And(got.info.src.len == src[1], got.info.src.external_address == src[2]))
+                ok = And(src_ok, isinstance(got.info.dest, Address) and And(got.info.dest.wc == wc, got.info.dest.hash_part == acc),
                          got.info.import_fee == fee, got.init is None, same_structure(got.body, body))
             out.append((path, ok))
             return
